@@ -46,7 +46,7 @@ func (r *ResponseFilter) Filter(msg proto.Message) {
 		proto.Reset(msg)
 		return
 	}
-	filterMessage(msg.ProtoReflect(), fmutils.NestedMaskFromPaths(r.fields.GetPaths()))
+	filterMessage(msg.ProtoReflect(), nestedMask(r.fields.GetPaths()))
 }
 
 // FilterClone is like Filter but clones and returns a new msg instead of modifying the original.
@@ -63,7 +63,7 @@ func (r *ResponseFilter) FilterClone(msg proto.Message) proto.Message {
 		return clone
 	}
 	clone := proto.Clone(msg)
-	filterMessage(clone.ProtoReflect(), fmutils.NestedMaskFromPaths(r.fields.GetPaths()))
+	filterMessage(clone.ProtoReflect(), nestedMask(r.fields.GetPaths()))
 	return clone
 }
 
